@@ -359,6 +359,32 @@ def child(case):
         srv.sim.script = None
         if not await srv.wait_caught_up(900):
             out['inconclusive'].append('no catch-up after the unflushed-block window')
+        # requests crossing the chain end inside the flush of a new block: the flush job is held right before it extends the header
+        # file; whatever height the database publishes at that instant, count, bytes and hex length must agree with it
+        def hold_flush(job):
+            if job.name.split('.')[-1] == 'flush_dbs':
+                job.longpark = 'D:file:headers:write'
+                job.park_secs = 30
+        vloop.Gate.enabled = True
+        loop.gex.on_submit = hold_flush
+        w.tip = w.make_block(w.tip, ntx=1)
+        w.bump()
+        orc = ChainOracle(w.active(), w.activation)
+        allh = orc.headers()
+
+        def flush_parked():
+            return any(j.longpark == 'D:file:headers:write' and j.label == j.longpark for j in loop.gex.jobs)
+        if await srv.wait_until(flush_parked, 200):
+            bump('flushes_held_before_the_header_write')
+            Hs = srv.db.state.height
+            for start in (Hs - 8, Hs - 2, Hs - 1, Hs, Hs + 1):
+                for count in (1, 2, 3, 4, 12):
+                    await headers_case(start, count, 0, CAP, H=srv.db.state.height)
+                    bump('headers_requests_inside_a_flush')
+        loop.gex.on_submit = None
+        vloop.Gate.enabled = False
+        if not await srv.wait_caught_up(900):
+            out['inconclusive'].append('no catch-up after the held flush')
         exc = srv.check_task()
         if exc:
             viol('server-task/exception', exc.strip().splitlines()[-1][:200], exc)
@@ -384,7 +410,7 @@ def run(tier, seed, replay=None):
     for name, minimum in {'history_requests': 50, 'histories_answered_in_full': 15, 'histories_refused_too_large': 15, 'refused_cached': 8,
                           'subscriptions_refused': 8, 'subscriptions_accepted': 8, 'over_limit_subscriptions_dropped': 8,
                           'overlapping_requests_judged': 60, 'pipelined_batches': 6, 'history_reads_overlapped_by_an_invalidation': 3,
-                          'headers_requests': 2000, 'headers_requests_with_an_unflushed_block_in_memory': 100, 'header_chunk_proofs_verified': 300, 'headers_refused_bad_checkpoint': 20, 'headers_requests_in_reorg_window': 100}.items():
+                          'headers_requests': 2000, 'headers_requests_with_an_unflushed_block_in_memory': 100, 'header_chunk_proofs_verified': 300, 'headers_requests_inside_a_flush': 60, 'headers_refused_bad_checkpoint': 20, 'headers_requests_in_reorg_window': 100}.items():
         rep.floor(name, c[name], minimum)
     return rep.finish(
         rule='per MAX_SEND setting (350000, 350064, 350163 -> derived limits 3535/3536/3537; 400000; one below the 350000 floor) a chain '
@@ -398,7 +424,8 @@ def run(tier, seed, replay=None):
              'refusal and no subscription may be kept. Headers: '
              '(start,count,cp_height) triples around genesis, the 2016 cap and the chain end, plus dense sweeps with the cap lowered '
              'to 1/2/7 through the class attribute, requests crossing the chain end while a block is processed in memory but not flushed (slow '
-             'daemon poll), and requests crossing the chain end inside the window of a forced reorg (blocks undone, '
+             'daemon poll) and inside the flush itself (flush job held right before the header file write), '
+             'and requests crossing the chain end inside the window of a forced reorg (blocks undone, '
              're-advance held back by a slow daemon: the header file holds orphaned headers beyond the tip): count == min(requested, max, '
              'available), hex length, bytes, max. distinct = '
              '(MAX_SEND, length - limit, fresh/cached) + (cap, start - height, count - cap, cp given)',
